@@ -9,7 +9,11 @@ CFG = dict(
               "no panic in apply_import / apply_export / CRUD calls (debug and release arithmetic)",
               "a delete / replace / merge that targets a referenced set, statement or policy is refused",
               "after every CRUD op every live assignment the op did not target evaluates a fixed probe set as before",
-              "a freshly built assignment evaluates as the named entities of the model table say"],
+              "a freshly built assignment evaluates as the named entities of the model table say",
+              "every set / statement / policy an accepted CRUD op created or changed is evaluated at once (wrapped in "
+              "throw-away zz-* entities) against the model's content, with routes aimed at added and removed prefix entries",
+              "delete_policy(preserve_statements=true) removes no statement; no delete_policy removes a statement "
+              "another policy still references"],
     assumptions=["conditions of later statements may see the attributes as modified by earlier passed statements or the "
                  "route as it entered the chain: either result is accepted",
                  "ALL on community / ext-community / large-community sets is judged only where 'every member of the set "
@@ -43,7 +47,11 @@ CFG = dict(
                          "prefix:zero-entry-v4": 250, "prefix:zero-entry-v6": 60,
                          "prefix:route-shorter-than-every-entry:on-chain": 250,
                          "prefix:route-equals-entry": 50, "prefix:route-one-bit-longer-than-entry": 35,
-                         "prefix:cond-on-v6-route": 250}),
+                         "prefix:cond-on-v6-route": 250,
+                         # CRUD content probes: what an accepted op created / changed is evaluated at once
+                         "crud:content-probes": 2000, "crud-probe:judged": 10000,
+                         "crud:prefix:entry-removed": 60, "crud:prefix:default-route-entry-removed": 25,
+                         "crud:policy:delete:ok": 25, "crud:policy:delete-statements:ok": 25}),
     quick=[e1("all", "c14", "debug", 1, 40), e1("all", "c14", "release", 1, 40)],
     thorough=[e1("unit", "c14", "debug", 2, 200, part="unit"),
               e1("unit-rel", "c14", "release", 2, 200, part="unit"),
